@@ -354,7 +354,8 @@ class QCow2Snapshot:
         self.extra = c_qcow2.QCowSnapshotExtraData(extra_data.ljust(len(c_qcow2.QCowSnapshotExtraData), b"\x00"))
 
         unknown_extra_size = self.header.extra_data_size - len(c_qcow2.QCowSnapshotExtraData)
-        self.unknown_extra = self.qcow2.fh.read(unknown_extra_size) if unknown_extra_size > 0 else None
+        # The unknown part has already been read as the tail of the extra data
+        self.unknown_extra = extra_data[len(c_qcow2.QCowSnapshotExtraData) :] if unknown_extra_size > 0 else None
 
         self.id_str = self.qcow2.fh.read(self.header.id_str_size).decode()
         self.name = self.qcow2.fh.read(self.header.name_size).decode()
